@@ -53,6 +53,19 @@ theorem C17_pipeline_costs_no_panic (yearOf : Int → Int) (σ : List Nat → Li
     ∃ c, calcTotalCosts yearOf (pipelineRows isDefault dflt inits rows) σ τ = .ok c :=
   C17_no_panic yearOf _ σ τ (C17_pipeline_rows_wf isDefault dflt inits rows hv hi)
 
+/-- **C17 (pipeline level): the figures.**  For every input, every cell of every dated row of the
+    report computed from the pipeline's ledgers is the `Figure` of that security and day — the
+    day's highest post-transaction cost base, else the cost base after the most recent earlier
+    transaction, else the opening cost base — with no hypothesis left on the rows. -/
+theorem C17_pipeline_day_figures (yearOf : Int → Int) {σ : List Nat → List Nat} {τ : List Int → List Int}
+    (hσ : IsOrder σ) (hτ : IsOrder τ)
+    (isDefault : Aff → Bool) (dflt : Aff) (inits : Nat → Option Status)
+    (rows : List PRow) (hv : ∀ r ∈ rows, r.tx.Valid) (hi : ∀ s, InitOk dflt (inits s)) {c : Result}
+    (h : calcTotalCosts yearOf (pipelineRows isDefault dflt inits rows) σ τ = .ok c) :
+    ∀ d ∈ c.days, ∀ s ∈ c.secs, ∃ v, c.tab.cost d s = some v ∧
+      Figure (pipelineRows isDefault dflt inits rows) s d v :=
+  C17_day_figures (C17_pipeline_rows_wf isDefault dflt inits rows hv hi) hσ hτ h
+
 /-! Non-vacuity: an unsorted two-security input with a second (registered) affiliate and a global
     split; the hypotheses hold and the report rows are the expected ones. -/
 private def pD : Aff := { key := 0, registered := false }
